@@ -1,8 +1,8 @@
 """C08 (decided on the sequential loop model; see p_seqprops.py, oracles.py, coq/props/C08.v)"""
 import p_seqprops
 
-PROPS = ["C08"]
-PROFILES = [(3, {"script_prob": 1.0, "script_len": (2, 6), "self_panic_prob": 0.0, "idle_prob": 0.15}), (1, {"self_panic_prob": 0.05})]
+PROPS = ["C08", "C13"]   # a lost insert_idle from a callback is also "does not have the effect it would have outside"
+PROFILES = [(3, {"script_prob": 1.0, "script_len": (2, 6), "self_panic_prob": 0.0, "idle_prob": 0.15, "idle_burst_prob": 0.08}), (1, {"self_panic_prob": 0.05})]
 
 
 def main(tier, seed):
